@@ -202,6 +202,22 @@ def check_case(case):
                 out.append((key, f"{value!r} -> {text!r} -> {back!r}: off by {dist(got, true_us)} us"))
         except Exception as e:
             out.append(("write-read-rejected", f"{value!r} -> {text!r} -> {e!r}"))
+        if "twin_off" in case and not out:
+            # the same instant expressed in another zone, written right afterwards: an equal-comparing value must
+            # still be written with its *own* offset (guards against memoisation keyed by value equality)
+            off2 = case["twin_off"]
+            if is_time:
+                loc2 = (true_us + off2 * 60 * 10**6) % R.US_DAY
+                hh, rem = divmod(loc2, 3600 * 10**6)
+                mm, rem = divmod(rem, 60 * 10**6)
+                ss, us2 = divmod(rem, 10**6)
+                twin = dict(case, h=hh, mi=mm, s=ss, us=us2, off=off2)
+            else:
+                y2, mo2, d2, h2, mi2, s2, us2 = R.fields_from_us(true_us + off2 * 60 * 10**6)
+                twin = dict(case, y=y2, mo=mo2, d=d2, h=h2, mi=mi2, s=s2, us=us2, off=off2)
+            twin.pop("twin_off")
+            if 1900 <= twin["y"] <= 2200:
+                out += [("after-equal-instant/" + k, d) for k, d in check_case(twin)]
     elif kind == "naive":
         is_time = case["is_time"]
         T = _dt_type(is_time)
@@ -261,6 +277,8 @@ def write_case(draw):
         c["noname"] = True
     elif r >= 3:
         c["name"] = draw(st.one_of(st.sampled_from(["EST", "a:b", "x]y", "Z"]), st.text(NAME_ALPHA, min_size=1, max_size=8)))
+    if draw(st.integers(0, 2)) == 0:
+        c["twin_off"] = draw(_offsets().filter(lambda o: o != off))
     return c
 
 
@@ -306,6 +324,8 @@ def _labels(c):
         labs.append("unsigned offset")
     if c.get("name") and (":" in c["name"] or "]" in c["name"]):
         labs.append("zone name with : or ]")
+    if "twin_off" in c:
+        labs.append("equal instant written twice in different zones")
     return labs
 
 
